@@ -138,11 +138,13 @@ Definition pb_v (cur : N) (key : string) (put_ok : bool) : gval :=
 Definition watermark_expect (cur new : N) (key : string) : list gval * list gval :=
   ([], if (cur <? new)%N then [VEff "lastHeight.store" [VN new]; VEff "store.SetMetadata" [ctx; VStr key; VLE64 new]] else []).
 
+Definition le_name : string := "binary.LittleEndian".
+Definition set_name : string := "pendingBase.setLastSubmittedHeight".
 Lemma go_setLastSubmittedHeight : forall cur new key put_ok,
-  run_calls [("binary.LittleEndian", VUnit)] "pendingBase.setLastSubmittedHeight" (Some (pb_v cur key put_ok)) [ctx; VN new]
+  run_calls [(le_name, VUnit)] set_name (Some (pb_v cur key put_ok)) [ctx; VN new]
   = Some (watermark_expect cur new key).
 Proof.
-  intros cur new key put_ok. unfold watermark_expect. plazy. rewrite ?N.eqb_refl. cbv beta iota.
+  intros cur new key put_ok. unfold watermark_expect, le_name, set_name. plazy. rewrite ?N.eqb_refl. cbv beta iota.
   repeat hstep; reflexivity.
 Qed.
 
